@@ -9,7 +9,8 @@ The first failing call (decided by the real crates in the harness) yields `Err` 
 span, exactly as the `?` in the Rust code does.  The only other influence of an external result
 on control flow — `url.to_string().ends_with(';' | '#')` — is an explicit alternative (`urlEnds`).
 
-Mirrors the code after F5 / F6 (name and extra validation errors instead of `expect`).
+Mirrors the code after F5 / F6 (name and extra validation errors instead of `expect`), F18 (unnamed
+check before the invalid-name error) and F19 (rewind to the name, not to the leading whitespace).
 -/
 import Pep508.Model.MarkerParse
 import Pep508.Model.Url
@@ -66,10 +67,11 @@ def looksLikeUnnamed (env : ProcEnv) (c : Cursor) : Res (Bool × Nat) :=
         (splitScheme u).isSome || u.contains '/' || u.contains '\\' || looksLikeArchive u
     .ok (verdict, c1.pos)
 
-/-- the error for "the input does not start like a requirement": unsupported-requirement if it
-    looks like a URL / path / archive, else the given string error -/
-def unnamedOr (env : ProcEnv) (c : Cursor) (start : Nat) (other : PErr) : Res PErr :=
-  match c.at_ start with
+/-- the error for "the input does not start like a requirement": unsupported-requirement if the
+    token at `at_` looks like a URL / path / archive (span from `start`), else the given string
+    error -/
+def unnamedOr (env : ProcEnv) (c : Cursor) (at_ start : Nat) (other : PErr) : Res PErr :=
+  match c.at_ at_ with
   | none => .panic "slice"
   | some clone =>
     match looksLikeUnnamed env clone with
@@ -79,7 +81,14 @@ def unnamedOr (env : ProcEnv) (c : Cursor) (start : Nat) (other : PErr) : Res PE
     | .ok (false, _) => .ok other
 
 /-- the `loop` of `parse_name` after the first char -/
-def parseNameLoop : Nat → Cursor → List Char → Nat → Res (List Nat × Cursor)
+def invalidName (env : ProcEnv) (c : Cursor) (start : Nat) : Res (List Nat × Cursor) :=
+  -- (F5) an error, not `expect`; (F18) a URL / path whose first segment is not a name
+  match unnamedOr env c start start ⟨.string, start, c.pos - start⟩ with
+  | .ok e => .err e
+  | .err e => .err e
+  | .panic s => .panic s
+
+def parseNameLoop (env : ProcEnv) : Nat → Cursor → List Char → Nat → Res (List Nat × Cursor)
   | 0, _, _, _ => .panic "stack"
   | fuel + 1, c, name, start =>
     match c.peek with
@@ -89,15 +98,15 @@ def parseNameLoop : Nat → Cursor → List Char → Nat → Res (List Nat × Cu
         | none => .panic "unreachable"
         | some (_, c1) =>
           if c1.peek.isNone && (ch == '.' || ch == '-' || ch == '_') then serr index (utf8Len ch)
-          else parseNameLoop fuel c1 (name ++ [ch]) start
+          else parseNameLoop env fuel c1 (name ++ [ch]) start
       else
         match Names.validateOwned (bytesOfChars name) with
         | some n => .ok (n, c)
-        | none => serr start (c.pos - start)                       -- (F5)
+        | none => invalidName env c start
     | none =>
       match Names.validateOwned (bytesOfChars name) with
       | some n => .ok (n, c)
-      | none => serr start (c.pos - start)
+      | none => invalidName env c start
 
 /-- `parse_name` -/
 def parseName (env : ProcEnv) (c : Cursor) : Res (List Nat × Cursor) :=
@@ -105,9 +114,9 @@ def parseName (env : ProcEnv) (c : Cursor) : Res (List Nat × Cursor) :=
   match c.next with
   | none => serr 0 1
   | some ((index, ch), c1) =>
-    if isAsciiAlnum ch then parseNameLoop (c.rest.length + 1) c1 [ch] start
+    if isAsciiAlnum ch then parseNameLoop env (c.rest.length + 1) c1 [ch] start
     else
-      match unnamedOr env c1 start ⟨.string, index, utf8Len ch⟩ with
+      match unnamedOr env c1 start start ⟨.string, index, utf8Len ch⟩ with
       | .ok e => .err e
       | .err e => .err e
       | .panic s => .panic s
@@ -271,7 +280,7 @@ def parseRequirement (env : ProcEnv) (x : Ext) (input : List Char) : ReqOut :=
             | (calls, .err e) => (calls, .err e)
             | (calls, .panic s) => (calls, .panic s)
           else
-            match unnamedOr env c start ⟨.string, c.pos, utf8Len other⟩ with
+            match unnamedOr env c nameStart start ⟨.string, c.pos, utf8Len other⟩ with   -- (F19)
             | .ok e => ([], .err e)
             | .err e => ([], .err e)
             | .panic s => ([], .panic s)
